@@ -627,8 +627,14 @@ def deep_machines(tier):
     big6 = dict(names=('x', 'y', 'z', 'w', 'v', 'u'), max_handles=3, max_ext=1,
                 ops=('and', 'or', 'xor', 'implies', 'equiv', 'diff'), with_foa=False,
                 with_refops=False, seeds=('big',))
-    pl = [('ops2', a, 3), ('ops3', b3, 4), ('big6', big6, 2)] if tier == 'quick' else [
-        ('big6', big6, 3),
+    # a declared spare variable that `undeclare_vars` removes in the middle of a history
+    spare = dict(names=('x', 'y'), max_handles=3, max_ext=1, ops=('or', 'and'), with_foa=False,
+                 with_ite=False, with_swap=False, with_reorder=False, with_spare=True,
+                 with_refops=False,
+                 seeds=('warm', 'used'))
+    pl = [('ops2', a, 3), ('ops3', b3, 4), ('big6', big6, 2),
+          ('ops2-spare', spare, 4)] if tier == 'quick' else [
+        ('big6', big6, 3), ('ops2-spare', spare, 5),
         ('ops2', a, 3), ('ops2-narrow', narrow, 6), ('ops3', b3, 5)]
     out = []
     for label, kw, depth in pl:
